@@ -3,7 +3,7 @@
    SD/ModelProofs.v. *)
 From Coq Require Import List Arith Bool QArith Qcanon Ring.
 From PTN Require SGE.Model.
-From PTN Require Import Tree.RTree SD.Model SD.ModelProofs SD.Core SD.CoreProofs SD.Pipeline SD.PipelineProofs.
+From PTN Require Import Tree.RTree SD.Model SD.ModelProofs SD.Core SD.CoreProofs SD.Pipeline SD.PipelineProofs SD.PipelineInv.
 Import ListNotations.
 Local Close Scope Qc_scope.
 Local Close Scope Q_scope.
@@ -271,8 +271,10 @@ Print Assumptions C01_combine_step_sound.
    cut_and_optimise): whenever the step preconditions hold before every step of the run
    (`pipeline_ok`, decidable, evaluated per instance by the harness) the diagram BIPARTITE
    from_hamiltonian returns denotes the Hamiltonian.
-   PARTIAL with respect to the universal statement "for all term lists with pairwise distinct terms":
-   missing is the proof that distinct terms imply `pipeline_ok` (the invariant of the BFS run). *)
+   PARTIAL with respect to "for all term lists with pairwise distinct terms (prefactor, symbol, string)":
+   for pairwise distinct operator STRINGS the hypothesis pipeline_ok is not needed at all
+   (C01_bipartite_exact below); this statement is what remains for term lists that repeat an operator string
+   with different coefficients (the code's re-hash branch): there pipeline_ok is evaluated per instance. *)
 Theorem C01_pipeline_exact_checked_partial : forall (t : rtree) (H : list pterm) (d : sd), NoDup (ids t) ->
   pipeline_ok t H = true -> from_hamiltonian_bipartite t H = Some d ->
   forall k : key, (coef (sd_denote t d) k == coef (ham_denote t H) k)%Q.
@@ -295,3 +297,35 @@ Example C01_example_pipeline :
   = (true, Some (true, true, [4; 2; 3], [6; 6; 6])).
 Proof. vm_compute. reflexivity. Qed.
 Print Assumptions C01_example_pipeline.
+
+(* THE DRIVER, UNIVERSALLY: for every tree with distinct identifiers and every list of (padded) terms with
+   pairwise distinct operator strings (label lists on the tree; coefficients lambda * gamma arbitrary,
+   symbolic or numeric), whenever the modelled BIPARTITE from_hamiltonian returns a diagram it denotes the
+   Hamiltonian.  Proved through the invariant of the BFS run (SD/PipelineInv.v): base-shaped sub-diagrams
+   below the frontier, typed vertex names, origin labels / subtree hashes / alive child vertices of the
+   frontier hyperedges, pairwise different hyperedges at the node whose child edges are being cut; every
+   combine_subtrees merge satisfies the hypotheses of C01_merge_equal_subtrees_sound and every cut satisfies
+   cut_pre, so C01_cut_step_sound applies at every edge.
+   Not covered by this statement: (i) term lists in which two terms have the SAME operator string with different
+   coefficients (the code's re-hash branch; modelled, tied, certified per instance through
+   C01_pipeline_exact_checked_partial); (ii) that the model returns `Some` (it returns None exactly where the
+   implementation raises or leaves a hyperedge without vertex on a cut edge, e.g. for a term with coefficient
+   0; checked per instance by the tie). *)
+Theorem C01_bipartite_exact : forall (t : rtree) (H : list pterm) (d : sd), NoDup (ids t) ->
+  NoDup (map (fun tm : pterm => map (snd tm) (ids t)) H) ->
+  from_hamiltonian_bipartite t H = Some d ->
+  forall k : key, (coef (sd_denote t d) k == coef (ham_denote t H) k)%Q.
+Proof. exact bipartite_exact. Qed.
+Print Assumptions C01_bipartite_exact.
+
+(* non-vacuity of the hypothesis: the six terms of C01_example_pipeline have pairwise distinct operator strings
+   (removing duplicates from the list of strings removes nothing) *)
+Example C01_example_distinct_strings :
+  let t := RNode 0 [RNode 1 [RNode 2 []]; RNode 3 []] in
+  let f := fun (l : list (nat * nat)) (v : nat) => match lookup v l with Some x => x | None => 2 end in
+  let H : list pterm :=
+           [((2 # 1)%Q, 0, f [(0, 10); (1, 11)]); ((3 # 1)%Q, 1, f [(0, 10); (1, 12)]); (1%Q, 0, f [(2, 13); (3, 14)]);
+            (1%Q, 0, f [(2, 13); (3, 15)]); ((1 # 2)%Q, 0, f [(0, 10); (3, 14)]); ((-1 # 1)%Q, 2, f [(1, 11); (2, 13); (3, 15)])] in
+  length (nodup (list_eq_dec Nat.eq_dec) (map (fun tm : pterm => map (snd tm) (ids t)) H)) = length H.
+Proof. vm_compute. reflexivity. Qed.
+Print Assumptions C01_example_distinct_strings.
